@@ -289,6 +289,10 @@ def run_obligation(ob, src):
     ob = dict(ob, kani_args=list(ob.get("kani_args", [])) + extra) if extra else ob
     res = run_limited(kani_cmd(ob), src, ob.get("timeout", 900), ob.get("mem_gb", 12) * 2**30)
     status, detail = classify(ob, res)
+    if status == "violation" and ob.get("lemma"):
+        # a structural lemma on the way to the property (e.g. "this term is a sum with one summand per piece"): when it fails the
+        # proof route is lost, but the property itself may well hold -- undecided, never an alarm
+        status, detail = "undecided", "structural lemma no longer holds (proof route lost; not a counterexample to the property): " + detail
     try:  # raw verifier output of the last run of each obligation, for triage
         os.makedirs("/var/tmp/weechess-verif-side/last", exist_ok=True)
         with open("/var/tmp/weechess-verif-side/last/%s.log" % ob["name"], "w") as f:
